@@ -50,12 +50,26 @@ package main
 //                                   package-level variable of the package
 //   unrecognised site
 //
+// MiddlewareFlow — the statement skeleton of the serving code, statement by statement in source order:
+//   stmt fn depth kind text         fn = "Type.method" (for a method whose body is `return http.HandlerFunc(func(w, r)
+//                                   {…})` the rows are those of the closure body); depth = nesting depth of the
+//                                   statement; kind = assign | call | decl | return | if | else; text = the statement
+//                                   printed by go/printer with white space collapsed (for `if` the condition; an
+//                                   `if init; cond` yields the init statement as its own row before the `if` row;
+//                                   `else if` yields an `else` row and the nested `if` one level deeper)
+//   unrecognised site               any other statement kind (for, range, switch, select, defer, go, labels, bare
+//                                   blocks, inc/dec, send) and a serving function that is missing
+//   Functions: Validator.Middleware, ValidationHandler.ServeHTTP / Middleware / before / validateRequest, every
+//   method of the wrapper types, and the package function isInformational.
+//
 // ConvertStatus — `Status:` values of the ValidationError literals and `x.Status = …` assignments of every
 // function of validation_error_encoder.go: status fn const.
 
 import (
+	"bytes"
 	"fmt"
 	"go/ast"
+	"go/printer"
 	"go/parser"
 	"go/token"
 	"go/types"
@@ -71,6 +85,7 @@ func init() {
 	register("ValidatorConfig", extractValidatorConfig)
 	register("ValidatorState", extractValidatorState)
 	register("ConvertStatus", extractConvertStatus)
+	register("MiddlewareFlow", extractMiddlewareFlow)
 }
 
 type c14pkg struct {
@@ -1094,4 +1109,124 @@ func extractConvertStatus(repo string) (string, error) {
 		rows = append(rows, ".unrecognised "+c14q(p.site(m.Pos())))
 	}
 	return c14Emit("ConvertStatus", "KRow", "KinModel.MiddlewareSrc", rows), nil
+}
+
+
+// ---------------------------------------------------------------------------------------------------------
+// MiddlewareFlow
+
+func (p *c14pkg) c14Print(n ast.Node) string {
+	var b bytes.Buffer
+	if err := printer.Fprint(&b, p.fset, n); err != nil {
+		return "?print-error"
+	}
+	t := strings.Join(strings.Fields(b.String()), " ")
+	t = strings.ReplaceAll(t, "{ ", "{")
+	t = strings.ReplaceAll(t, ", }", "}")
+	t = strings.ReplaceAll(t, " }", "}")
+	return t
+}
+
+// the body whose statements are the serving code of fd: the closure of `return http.HandlerFunc(func…)` when the
+// method body is exactly that statement, the method body otherwise
+func c14ServingBody(fd *ast.FuncDecl) *ast.BlockStmt {
+	if fd.Body == nil {
+		return nil
+	}
+	if len(fd.Body.List) == 1 {
+		if ret, ok := fd.Body.List[0].(*ast.ReturnStmt); ok && len(ret.Results) == 1 {
+			if call, ok := ret.Results[0].(*ast.CallExpr); ok && len(call.Args) == 1 {
+				if sel, ok := call.Fun.(*ast.SelectorExpr); ok && sel.Sel.Name == "HandlerFunc" {
+					if fl, ok := call.Args[0].(*ast.FuncLit); ok {
+						return fl.Body
+					}
+				}
+			}
+		}
+	}
+	return fd.Body
+}
+
+func (p *c14pkg) c14FlowRows(fn string, list []ast.Stmt, depth int, rows *[]string) {
+	add := func(kind, text string) {
+		*rows = append(*rows, fmt.Sprintf(".stmt %s %d %s %s", c14q(fn), depth, c14q(kind), c14q(text)))
+	}
+	for _, st := range list {
+		switch x := st.(type) {
+		case *ast.AssignStmt:
+			add("assign", p.c14Print(x))
+		case *ast.ExprStmt:
+			if _, ok := x.X.(*ast.CallExpr); ok {
+				add("call", p.c14Print(x))
+			} else {
+				*rows = append(*rows, ".unrecognised "+c14q(p.site(x.Pos())))
+			}
+		case *ast.DeclStmt:
+			add("decl", p.c14Print(x))
+		case *ast.ReturnStmt:
+			add("return", p.c14Print(x))
+		case *ast.IfStmt:
+			p.c14FlowIf(fn, x, depth, rows)
+		default:
+			*rows = append(*rows, ".unrecognised "+c14q(p.site(st.Pos())))
+		}
+	}
+}
+
+func (p *c14pkg) c14FlowIf(fn string, x *ast.IfStmt, depth int, rows *[]string) {
+	if x.Init != nil {
+		p.c14FlowRows(fn, []ast.Stmt{x.Init}, depth, rows)
+	}
+	*rows = append(*rows, fmt.Sprintf(".stmt %s %d %s %s", c14q(fn), depth, c14q("if"), c14q(p.c14Print(x.Cond))))
+	p.c14FlowRows(fn, x.Body.List, depth+1, rows)
+	switch e := x.Else.(type) {
+	case nil:
+	case *ast.BlockStmt:
+		*rows = append(*rows, fmt.Sprintf(".stmt %s %d %s %s", c14q(fn), depth, c14q("else"), c14q("")))
+		p.c14FlowRows(fn, e.List, depth+1, rows)
+	case *ast.IfStmt:
+		*rows = append(*rows, fmt.Sprintf(".stmt %s %d %s %s", c14q(fn), depth, c14q("else"), c14q("")))
+		p.c14FlowIf(fn, e, depth+1, rows)
+	default:
+		*rows = append(*rows, ".unrecognised "+c14q(p.site(x.Else.Pos())))
+	}
+}
+
+func extractMiddlewareFlow(repo string) (string, error) {
+	p, err := c14Load(repo)
+	if err != nil {
+		return "", err
+	}
+	var rows []string
+	method := func(ty, name string) *ast.FuncDecl {
+		for _, m := range p.methods[ty] {
+			if m.Name.Name == name {
+				return m
+			}
+		}
+		return nil
+	}
+	emit := func(fn string, fd *ast.FuncDecl) {
+		if fd == nil {
+			rows = append(rows, ".unrecognised "+c14q("missing:"+fn))
+			return
+		}
+		body := c14ServingBody(fd)
+		if body == nil {
+			rows = append(rows, ".unrecognised "+c14q(p.site(fd.Pos())))
+			return
+		}
+		p.c14FlowRows(fn, body.List, 0, &rows)
+	}
+	emit("Validator.Middleware", method("Validator", "Middleware"))
+	for _, m := range []string{"ServeHTTP", "Middleware", "before", "validateRequest"} {
+		emit("ValidationHandler."+m, method("ValidationHandler", m))
+	}
+	for _, ty := range p.wrapperTypes() {
+		for _, m := range p.methods[ty] {
+			emit(ty+"."+m.Name.Name, m)
+		}
+	}
+	emit("isInformational", p.funcs["isInformational"])
+	return c14Emit("MiddlewareFlow", "FRow", "KinModel.MiddlewareSrc", rows), nil
 }
